@@ -1416,3 +1416,210 @@ pub fn c11(a: &Analysis) -> Vec<Violation> {
     }
     out
 }
+
+// ---------------------------------------------------------------------------------------
+// C17 — session resumption
+
+/// Effective session expiry interval of connection `c` (CONNECT value, overridden by CONNACK).
+fn session_expiry(a: &Analysis, c: usize) -> u64 {
+    let from_connect = a.wire.iter().find_map(|w| match &w.pkt {
+        Packet::Connect(x) if w.conn == c => Some(x.props.u32(pid::SESSION_EXPIRY).unwrap_or(0)),
+        _ => None,
+    });
+    let from_connack = a.inbound.iter().find_map(|i| match &i.p.pkt {
+        Some(Packet::Connack(k)) if i.p.conn == c => k.props.u32(pid::SESSION_EXPIRY),
+        _ => None,
+    });
+    from_connack.or(from_connect).unwrap_or(0) as u64
+}
+
+pub fn c17(a: &Analysis, sc: &Scenario) -> Vec<Violation> {
+    let mut out = Vec::new();
+    // (connection index, elapsed seconds) of every resume
+    let mut resumes: Vec<(usize, u64)> = Vec::new();
+    let mut conn_no = 0usize;
+    for s in &sc.steps {
+        match s {
+            Step::Start { .. } => {}
+            Step::Reconnect { elapsed, .. } => {
+                conn_no += 1;
+                if conn_no < a.conns.len() {
+                    resumes.push((conn_no, *elapsed));
+                }
+            }
+            _ => {}
+        }
+    }
+    for p in real_panics(a) {
+        out.push(v("C17", format!("C17/panic/{}", panic_site(&p.2)), format!("{:?} panicked: {}", p.1, p.2)));
+    }
+    for (c, elapsed) in resumes {
+        let prev = c - 1;
+        let old = &a.conns[prev];
+        let new = &a.conns[c];
+        let Some((old_end, _)) = old.run_returned else { continue };
+        if new.run_started.is_none() {
+            continue;
+        }
+        let e = session_expiry(a, prev);
+        // the clock may also have been advanced between the end of run() and the reconnect
+        let expired = e == 0 || (e != u32::MAX as u64 && elapsed > e);
+        let near = e != 0 && e != u32::MAX as u64 && (elapsed as i64 - e as i64).abs() <= 60;
+        if near {
+            continue; // equality region (plus possible clock advances): not specified
+        }
+        // what the previous connection left unfinished, in original wire order
+        let strict = old.read_end_seen.is_some() && old.write_fault_seen.is_none();
+        let arrived = |kind: Kind, id: u16, after: usize| -> Option<&InView> {
+            a.inbound.iter().find(|i| i.p.conn == prev && i.p.seq > after && i.avail_seq.is_some() && i.p.pkt.as_ref().map(|p| p.kind() == kind && p.pid() == Some(id)).unwrap_or(false))
+        };
+        let mut expected: Vec<Packet> = Vec::new();
+        let mut involved_ops: Vec<usize> = Vec::new();
+        for w in a.wire.iter().filter(|w| w.conn == prev) {
+            match &w.pkt {
+                Packet::Publish(p) if p.qos > 0 => {
+                    let id = p.pid.unwrap();
+                    let ack_kind = if p.qos == 1 { Kind::Puback } else { Kind::Pubrec };
+                    if arrived(ack_kind, id, w.seq_first).is_none() {
+                        let mut again = p.clone();
+                        again.dup = true;
+                        expected.push(Packet::Publish(again));
+                        if let Some(op) = marker_of(&w.pkt) {
+                            involved_ops.push(op);
+                        }
+                    }
+                }
+                Packet::Pubrel(r) => {
+                    if arrived(Kind::Pubcomp, r.pid, w.seq_first).is_none() {
+                        expected.push(w.pkt.clone());
+                        // the op: the QoS 2 publish with this identifier written before
+                        if let Some(op) = a.wire.iter().filter(|x| x.conn == prev && x.off < w.off).rev().find_map(|x| match &x.pkt {
+                            Packet::Publish(pp) if pp.pid == Some(r.pid) => marker_of(&x.pkt),
+                            _ => None,
+                        }) {
+                            involved_ops.push(op);
+                        }
+                    }
+                }
+                _ => {}
+            }
+        }
+        let _ = old_end;
+        let reqs: Vec<&WirePkt> = a.requests(c).into_iter().filter(|w| !matches!(w.pkt, Packet::Connect(_))).collect();
+        // re-sent packets = DUP publishes and PUBRELs for identifiers of the old connection
+        let is_resend = |w: &WirePkt| match &w.pkt {
+            Packet::Publish(p) => p.dup,
+            _ => false,
+        };
+        if expired {
+            if let Some(w) = reqs.iter().find(|w| is_resend(w)) {
+                out.push(v("C17", "C17/resent-when-expired", format!("session expiry {e} s, offline {elapsed} s, yet {:?} id {:?} was re-sent", w.pkt.kind(), w.pkt.pid())));
+            }
+            if let Some(w) = reqs.first() {
+                if let Packet::Pubrel(r) = &w.pkt {
+                    if expected.iter().any(|x| matches!(x, Packet::Pubrel(y) if y.pid == r.pid)) {
+                        out.push(v("C17", "C17/resent-when-expired", format!("session expiry {e} s, offline {elapsed} s, yet PUBREL id {} was re-sent", r.pid)));
+                    }
+                }
+            }
+            // abandoned operations (those whose handshake lived in the discarded session state)
+            // must fail, not hang; an operation between its QoS 2 phases whose PUBREL had not
+            // been written yet is not abandoned: it goes on with its PUBREL as new traffic
+            if strict {
+                for op_id in &involved_ops {
+                    let Some(op) = a.ops.get(op_id) else { continue };
+                    if op.cancelled.is_none() && op.outcome().is_none() && a.live_at_end.contains(&TaskRef::Op(op.idx)) {
+                        out.push(v("C17", "C17/hang-after-expiry", format!("op {} was awaiting an acknowledgement when the connection was lost; the session expired but the future is still pending", op.idx)));
+                    }
+                }
+            }
+            continue;
+        }
+        if !strict {
+            continue;
+        }
+        // not expired: the first requests after CONNECT are exactly `expected`
+        let got: Vec<&Packet> = reqs.iter().take(expected.len()).map(|w| &w.pkt).collect();
+        for (k, want) in expected.iter().enumerate() {
+            match got.get(k) {
+                None => {
+                    let all_failed = involved_ops.iter().all(|o| a.ops.get(o).map(|x| x.err() == Some("ContextExited")).unwrap_or(false));
+                    if reqs.iter().all(|w| !is_resend(w)) && all_failed && !involved_ops.is_empty() && k == 0 {
+                        out.push(v("C17", "C17/reset-when-live", format!("session expiry {e} s, offline {elapsed} s: the session was reset, {} packet(s) were not re-sent and their operations failed", expected.len())));
+                    } else if new.run_returned.is_none() && !new.write_blocked_at_end {
+                        out.push(v("C17", "C17/not-resent", format!("expected re-send #{k} ({:?} id {:?}) is missing", want.kind(), want.pid())));
+                    }
+                    break;
+                }
+                Some(g) => {
+                    if g.kind() != want.kind() || g.pid() != want.pid() {
+                        let appears_later = reqs.iter().any(|w| w.pkt.kind() == want.kind() && w.pkt.pid() == want.pid() && (is_resend(w) || matches!(w.pkt, Packet::Pubrel(_))));
+                        let class = if appears_later { "C17/order" } else if matches!(g, Packet::Publish(p) if p.dup) || matches!(g, Packet::Pubrel(_)) {
+                            match g {
+                                Packet::Publish(_) => "C17/resent-acked/publish",
+                                _ => "C17/resent-acked/pubrel",
+                            }
+                        } else {
+                            "C17/not-resent"
+                        };
+                        out.push(v("C17", class, format!("re-send position {k}: expected {:?} id {:?}, found {:?} id {:?}", want.kind(), want.pid(), g.kind(), g.pid())));
+                        break;
+                    }
+                    if let (Packet::Publish(x), Packet::Publish(y)) = (g, want) {
+                        if !x.dup {
+                            out.push(v("C17", "C17/dup-flag", format!("re-sent PUBLISH id {:?} has DUP=0", x.pid)));
+                        } else if x != y {
+                            out.push(v("C17", "C17/content", format!("re-sent PUBLISH id {:?} differs from the original", x.pid)));
+                        }
+                    } else if g != &want {
+                        out.push(v("C17", "C17/content", format!("re-sent {:?} id {:?} differs from the original", want.kind(), want.pid())));
+                    }
+                }
+            }
+        }
+        // nothing else is re-sent
+        for w in reqs.iter().skip(expected.len()) {
+            if is_resend(w) {
+                let class = "C17/resent-acked/publish";
+                out.push(v("C17", class, format!("PUBLISH id {:?} re-sent with DUP=1 although it is not among the {} unfinished handshakes", w.pkt.pid(), expected.len())));
+                break;
+            }
+        }
+        // a PUBREL on the new connection beyond the expected ones must be a first transmission
+        // (its PUBREC arrived, possibly on the old connection, and no PUBREL was written yet)
+        for w in reqs.iter().skip(expected.len()) {
+            if let Packet::Pubrel(r) = &w.pkt {
+                let written_before = a.wire.iter().any(|x| x.conn == prev && matches!(&x.pkt, Packet::Pubrel(y) if y.pid == r.pid));
+                let fresh_pubrec = a.inbound.iter().any(|i| i.p.conn == c && matches!(&i.p.pkt, Some(Packet::Pubrec(x)) if x.pid == r.pid) && i.avail_seq.map(|s| s < w.seq_first).unwrap_or(false));
+                if written_before && !fresh_pubrec {
+                    out.push(v("C17", "C17/resent-acked/pubrel", format!("PUBREL id {} re-sent although its PUBCOMP had arrived", r.pid)));
+                    break;
+                }
+            }
+        }
+        // original futures complete on the acknowledgements of the new connection
+        if new.run_returned.is_none() && a.ctx_gone.is_none() && new.consumed == new.inbound_len && !new.write_blocked_at_end {
+            for op_id in &involved_ops {
+                let Some(op) = a.ops.get(op_id) else { continue };
+                if op.cancelled.is_some() {
+                    continue;
+                }
+                let acks: Vec<&InView> = a.acks_for(*op_id).into_iter().filter(|i| i.p.conn == c && i.avail_seq.is_some()).collect();
+                let completing = acks.iter().find(|i| match &i.p.pkt {
+                    Some(Packet::Puback(_)) | Some(Packet::Pubcomp(_)) => true,
+                    Some(Packet::Pubrec(x)) => x.reason >= 0x80,
+                    _ => false,
+                });
+                if let Some(ack) = completing {
+                    let want = expected_outcome(op, ack.p.pkt.as_ref().unwrap());
+                    match op.outcome() {
+                        Some(got) if outcome_matches(got, &want) => {}
+                        Some(got) => out.push(v("C17", "C17/original-future", format!("op {}: acknowledged on the new connection, returned {:?} instead of {:?}", op_id, got, want))),
+                        None => out.push(v("C17", "C17/original-future", format!("op {}: acknowledged on the new connection but still pending", op_id))),
+                    }
+                }
+            }
+        }
+    }
+    out
+}
